@@ -1,13 +1,17 @@
 #!/bin/bash
 # usage: with_patch.sh <patch.diff> <command...>   — applies the patch to /repo, runs the command, always reverts.
-# The evidence files are saved and restored around the run: committed evidence must come from the unchanged tree.
+# The evidence files and the regenerated coq/Gen/*.v are saved and restored around the run: what is committed must come
+# from the unchanged tree.
 set -u
 patch="$1"; shift
 save=$(mktemp -d)
-cp -a /verif/evidence/. "$save"/ 2>/dev/null
+mkdir -p "$save/evidence" "$save/gen"
+cp -a /verif/evidence/. "$save/evidence"/ 2>/dev/null
+cp -a /verif/coq/Gen/*.v "$save/gen"/ 2>/dev/null
 git -C /repo apply "$patch" || { echo "with_patch: cannot apply $patch"; rm -rf "$save"; exit 3; }
 "$@"; rc=$?
 git -C /repo checkout -- .
-cp -a "$save"/. /verif/evidence/ 2>/dev/null
+cp -a "$save/evidence"/. /verif/evidence/ 2>/dev/null
+for f in "$save"/gen/*.v; do cmp -s "$f" /verif/coq/Gen/$(basename "$f") || cp "$f" /verif/coq/Gen/; done
 rm -rf "$save"
 exit $rc
